@@ -36,6 +36,9 @@ type CrashKV struct {
 	pauseIn int
 	pauseCh chan struct{}
 	Paused  bool
+	// Probe, when set, is sampled at every durable write (after it was applied): the DA-included
+	// height the node reports at that instant.
+	Probe func() int
 }
 
 // PauseAfter makes the writer of the k-th next write block (after the write was applied)
@@ -149,7 +152,12 @@ func (c *CrashKV) apply(ops []kvop, batch bool) {
 	}
 	c.mu.Unlock()
 	if c.tr != nil && !c.Quiet {
-		c.tr.Emit("KV", summarize(c.node, w, ops, batch))
+		rec := summarize(c.node, w, ops, batch)
+		rec["incl"] = -1
+		if p := c.Probe; p != nil {
+			rec["incl"] = p()
+		}
+		c.tr.Emit("KV", rec)
 	}
 	if wait != nil {
 		<-wait
